@@ -7,7 +7,15 @@ prop("C08", "exploration",
      "real muxers over vlib/memconn inside a synctest bubble; one side closes after writing and reading everything, the other "
      "reads to end-of-stream. Oracle: every Read returns the next bytes of the peer's written stream (payload = keyed function "
      "of the offset); end-of-stream only after all bytes; all written bytes readable and the tube closed within 10 virtual "
-     "minutes after the heal time. Non-trivial = a fault hit at least one packet or an outage longer than the initial RTO; "
+     "minutes after the heal time. One case in eight comes from the SMALL-WRITES regime (long-lived interactive tube): one side makes "
+     "40-600 writes that all stay below a drawn size cap (16/200/1000/1400/4096 bytes, every write is one frame) with pauses of 0-40 ms, "
+     "the other side none, the same kind, or an ordinary write sequence; the link loses nothing and never heals: the direction that "
+     "carries the acknowledgements duplicates 30/60/100 % of the packets for the whole life of the tube, the data direction 0/30/100 %, "
+     "both with delay 0-150 ms and jitter up to 80 ms; the same scenario and oracle apply (nothing is lost, so completeness is demanded "
+     "within the 10 virtual minutes). Root-cause attribution by history: when the network log shows that a side was delivered a run of "
+     ">= 95 consecutive acknowledgements repeating one number (the sender's documented give-up limit is 100), an early end-of-stream / "
+     "failing Write / stall in that case gets the one signature tube-torn-down:more-than-100-consecutive-duplicate-acks; without such a "
+     "run the symptom-shaped signatures stay. Non-trivial = a fault hit at least one packet or an outage longer than the initial RTO; "
      "distinct by case hash. Reassembly core (exhaustive sub-space): receiver.receive driven directly with every arrival sequence of "
      "length<=5 (thorough 6) over {frames 1..n, FIN, stale frame, frame beyond the window}, n=1..3, six window bases incl. the 2^32 "
      "wrap; buffer must equal the contiguous prefix, FIN only after all earlier frames.",
